@@ -38,7 +38,6 @@ var entryHooks = []entryHook{
 	{File: "lib/vip/vip.go", Recv: "Client", Func: "ValidateUserOTP", Var: "VipValidateUserOTP"},
 	{File: "lib/vip/vip.go", Recv: "Client", Func: "StartUserVIPPush", Var: "VipStartUserVIPPush"},
 	{File: "lib/vip/vip.go", Recv: "Client", Func: "VipPushHasBeenApproved", Var: "VipPushHasBeenApproved"},
-	{File: "lib/client/sshagent/agent.go", Func: "connectToDefaultSSHAgentLocation", Var: "SSHAgentDial"},
 	{File: "keymasterd/eventnotifier/impl.go", Recv: "EventNotifier", Func: "publishCert", Var: "EventPublishCert", Observe: true},
 }
 
@@ -143,6 +142,35 @@ func generate(repo, verif, scratch string) (*genOut, error) {
 			}
 			ov.Replace[f] = dst
 		}
+	}
+	// 3a'. the client's agent connection: net.Dial in lib/client/sshagent goes to the simulated transport
+	// (vfhook.ClientDial: the real net.Dial unless the harness installs one); everything above the dial is real
+	{
+		asrcs, _ := filepath.Glob(filepath.Join(repo, "lib", "client", "sshagent", "*.go"))
+		sort.Strings(asrcs)
+		dials := 0
+		for _, f := range asrcs {
+			if strings.HasSuffix(f, "_test.go") {
+				continue
+			}
+			n, data, err := rewriteDials(f)
+			if err != nil {
+				return nil, fmt.Errorf("instrument %s: %w", f, err)
+			}
+			if n == 0 {
+				continue
+			}
+			dials += n
+			dst := filepath.Join(scratch, "inst", "lib_client_sshagent_"+filepath.Base(f))
+			if err := os.WriteFile(dst, data, 0o644); err != nil {
+				return nil, err
+			}
+			ov.Replace[f] = dst
+		}
+		if dials == 0 {
+			return nil, fmt.Errorf("no net.Dial found in lib/client/sshagent (source layout changed?)")
+		}
+		out.Hooks += dials
 	}
 	// 3b. package-level sync.Map variables of the daemon are process-global state
 	// that must not leak from one simulated run into the next: generate a reset
@@ -420,6 +448,50 @@ func instrumentYields(path string) (int, []byte, error) {
 	fm, err := format.Source(src)
 	if err != nil {
 		return 0, nil, fmt.Errorf("formatting instrumented %s: %w", base, err)
+	}
+	return count, fm, nil
+}
+
+// rewriteDials turns every net.Dial(...) call of the file into vfhook.ClientDial(...).
+func rewriteDials(path string) (int, []byte, error) {
+	fset := token.NewFileSet()
+	f, err := parser.ParseFile(fset, path, nil, parser.ParseComments)
+	if err != nil {
+		return 0, nil, err
+	}
+	count := 0
+	ast.Inspect(f, func(x ast.Node) bool {
+		call, ok := x.(*ast.CallExpr)
+		if !ok {
+			return true
+		}
+		se, ok := call.Fun.(*ast.SelectorExpr)
+		if !ok {
+			return true
+		}
+		if id, ok := se.X.(*ast.Ident); ok && id.Name == "net" && (se.Sel.Name == "Dial" || se.Sel.Name == "DialTimeout") {
+			name := "ClientDial"
+			if se.Sel.Name == "DialTimeout" {
+				name = "ClientDialTimeout"
+			}
+			call.Fun = &ast.SelectorExpr{X: ast.NewIdent("vfhook"), Sel: ast.NewIdent(name)}
+			count++
+		}
+		return true
+	})
+	if count == 0 {
+		return 0, nil, nil
+	}
+	addImport(f, hookImportPath)
+	var b bytes.Buffer
+	cfg := printer.Config{Mode: printer.UseSpaces | printer.TabIndent, Tabwidth: 8}
+	f.Comments = nil
+	if err := cfg.Fprint(&b, fset, f); err != nil {
+		return 0, nil, err
+	}
+	fm, err := format.Source(b.Bytes())
+	if err != nil {
+		return 0, nil, err
 	}
 	return count, fm, nil
 }
